@@ -31,7 +31,7 @@ def default_summary():
     return json.loads((COQ / "GenDefault" / "t1_summary.json").read_text())
 
 
-CORE_TPL = ["Model/Base.v", "Model/Templates.v", "Model/TplLane.v", "Gen/GenSrc.v", "Proofs/TemplatesProofs.v", "Proofs/SrcObligationsGen.v"]
+CORE_TPL = ["Model/Base.v", "Model/Templates.v", "Model/TdTemplates.v", "Model/TplLane.v", "Gen/GenSrc.v", "Proofs/TemplatesProofs.v", "Proofs/SrcObligationsGen.v"]
 
 
 def _c04(v, b, tier):
